@@ -60,7 +60,20 @@ def gen_case(rng, thorough):
                 f = {"id": rng.choice(FIDS), "!" + rng.choice(["p", "q"]): gen.scalar(rng)}   # property fact
             elif rng.random() < 0.06:
                 f["deleteWith"] = [rng.choice(FIDS + ["ghost"])]       # dies with another id, stored or not
-            ops.append({"op": "addFact", "id": rng.choice(FIDS + ["", ""]), "fact": f})
+            fid = rng.choice(FIDS + ["", ""])
+            # (not next to a fact holding a non-map under `rule`: LinearState then panics on every event, finding C13-linear-bad-rule-panic)
+            if fid and rng.random() < 0.1 and not any(isinstance(v, float) for v in f.values()) and not any("rule" in b for b in base) and "id" not in f:
+                # written by a rule action (Env.AddFact): the fact reaches the state as the Javascript runtime exports it
+                # (an array of strings as []string, integers as int64) and is searchable like any other
+                if rng.random() < 0.5: f = dict(f, tags=rng.sample(["red", "green", "blue", "x"], rng.randint(1, 3)))
+                versions.append(dict(f))
+                t = {"t": "addfact", "id": fid, "fact": f}
+                ops.append({"op": "addRule", "id": "mk", "rule": {"when": {"pattern": {"make!": "?m"}}, "action": {"code": js_of_tmpl(t), "verif_tmpl": t}}})
+                ops.append({"op": "event", "event": {"make!": 1}})
+                ops.append({"op": "remRule", "id": "mk"})
+                if "tags" in f: ops.append({"op": "search", "pattern": {"tags": [rng.choice(f["tags"])]}, "inherited": False})
+            else:
+                ops.append({"op": "addFact", "id": fid, "fact": f})
         elif r < 0.47:
             ops.append({"op": "remFact", "id": rng.choice(FIDS + ["!f1.p", "ghost"])})
         elif r < 0.60:
